@@ -210,7 +210,18 @@ RShapes ==
   \* a configured repetition used as a plain parser (IterConfigure::go), followed by a rest capture
   \cup {<<"withctx", VI(n), <<"run", <<cf, <<"rep", J("a"), b[1], b[2]>>>>>>>> :
            n \in 0..2, cf \in {"cfgrep", "cfgrepmin", "cfgrepmax"}, b \in {<<0, Inf>>, <<1, 2>>, <<2, 2>>}}
-RepTemplates == RShapes \cup {<<"then", sh, RestCap>> : sh \in RShapes}
+(* p.into_iter(): an iterator whose items come from p's output, not from the input *)
+IIVecs == {<<"collect", <<"rep", a, b[1], b[2]>>, "vec">> : a \in {J("a"), <<"any">>}, b \in {<<0, Inf>>, <<1, 2>>, <<2, Inf>>}}
+         \cup {<<"collect", <<"sep", J("a"), J(","), 0, Inf, FALSE, TRUE>>, "vec">>}
+IIts == {<<"intoiter", v>> : v \in IIVecs}
+IIShapes ==
+  {<<"collect", it, k>> : it \in IIts, k \in {"vec", "count"}}
+  \cup {<<"run", it>> : it \in IIts}
+  \cup {<<"exact", it, n>> : it \in IIts, n \in {1, 2}}
+  \cup {<<"foldl", J("a"), it, "g">> : it \in IIts}
+  \cup {<<"foldr", it, J("a"), "g">> : it \in IIts}
+  \cup {<<"collect", <<"rep", <<"then", J(","), <<"collect", it, "vec">>>>, 0, Inf>>, "vec">> : it \in IIts}
+RepTemplates == RShapes \cup {<<"then", sh, RestCap>> : sh \in RShapes} \cup IIShapes \cup {<<"then", sh, RestCap>> : sh \in IIShapes}
 (* Pratt (C09): operator tables over symbols + - * ! ~ ^ with powers 0..3, same symbol allowed *)
 (* as prefix and infix; atoms a / b                                                              *)
 PAtom == <<"oneof", <<"a", "b">>>>
